@@ -29,7 +29,7 @@ from .. import q
 from ..cfg import must_facts, explore
 from ..model import AnalysisError
 from ..mutate import mutate, remove_stmts, replace_expr, replace_stmt, parse_stmt, parse_expr
-from ..x_secflow import own_nodes, Reach, Escapes, is_unpack, strip_wrappers, same, parsed_facts, fact_geq0, equality_fact, absent_or_unknown
+from ..x_secflow import own_nodes, concat_canon, scalar_const, Reach, Escapes, is_unpack, strip_wrappers, same, parsed_facts, fact_geq0, equality_fact, absent_or_unknown
 
 TECHNIQUE = "path-sensitive must-pass-through on the CFG of _execute with exhaustive evaluation of the method predicate, guard dominance + reaching-definition expansion in check_xsrf_cookie, exception-escape analysis, issuer/decoder role tables"
 EXPLANATION = (
@@ -302,11 +302,13 @@ def token_pos(e, method):
 
 
 def classify_source(e):
-    if is_self_call(e, "get_argument") and e.args and isinstance(e.args[0], ast.Constant) and e.args[0].value == "_xsrf":
+    a0 = q.arg(e, 0, "name") if isinstance(e, ast.Call) else None
+    if is_self_call(e, "get_argument") and isinstance(a0, ast.Constant) and a0.value == "_xsrf":
         return "form:_xsrf"
-    if isinstance(e, ast.Call) and isinstance(e.func, ast.Attribute) and e.func.attr == "get" and q.dotted(e.func.value) == "self.request.headers" and e.args and isinstance(e.args[0], ast.Constant) \
-            and isinstance(e.args[0].value, str) and e.args[0].value.lower() in HEADER_SOURCES:
-        return "header:" + e.args[0].value.lower()
+    h0 = q.arg(e, 0, "key") if isinstance(e, ast.Call) else None
+    if isinstance(e, ast.Call) and isinstance(e.func, ast.Attribute) and e.func.attr == "get" and q.dotted(e.func.value) == "self.request.headers" and isinstance(h0, ast.Constant) \
+            and isinstance(h0.value, str) and h0.value.lower() in HEADER_SOURCES:
+        return "header:" + h0.value.lower()
     return None
 
 
@@ -497,9 +499,15 @@ def check_raises(ck, chk, es):
             n += 1
             r = s.node
             c = r.exc
-            if isinstance(c, ast.Call) and q.dotted(c.func) == "HTTPError" and not (c.args and isinstance(c.args[0], ast.Constant)):
+            st_arg = q.arg(c, 0, "status_code") if isinstance(c, ast.Call) else None
+            if st_arg is not None and not isinstance(st_arg, ast.Constant):
+                try:
+                    st_arg = ast.Constant(value=scalar_const(chk.module, chk.cls, st_arg))
+                except KeyError:
+                    pass
+            if isinstance(c, ast.Call) and q.dotted(c.func) == "HTTPError" and not isinstance(st_arg, ast.Constant):
                 raise AnalysisError("check_xsrf_cookie: HTTPError status is not a literal: %s" % q.unparse(c)[:60])
-            ok = isinstance(c, ast.Call) and q.dotted(c.func) == "HTTPError" and c.args and isinstance(c.args[0], ast.Constant) and c.args[0].value == 403
+            ok = isinstance(c, ast.Call) and q.dotted(c.func) == "HTTPError" and isinstance(st_arg, ast.Constant) and st_arg.value == 403
             ck.ob("C24.only-403", chk, r, ok, "a rejected token is answered with HTTPError(403)")
         elif s.handler is None:
             n += 1
@@ -569,6 +577,45 @@ def fold_format(v):
     return ast.copy_location(new, v)
 
 
+def fold_concat(v):
+    """``b"2|" + a + b"|" + b`` / ``b"".join([b"2|", a, b"|", b])`` -> ``b"|".join([b"2", a, b])`` when the literal
+    pieces between the computed ones are one and the same separator."""
+    v2 = concat_canon(v)
+    pieces = []
+
+    def flat(x):
+        if isinstance(x, ast.BinOp) and isinstance(x.op, ast.Add):
+            flat(x.left)
+            flat(x.right)
+        else:
+            pieces.append(x)
+
+    flat(v2)
+    if len(pieces) < 3 or not any(isinstance(x, ast.Constant) for x in pieces) or all(isinstance(x, ast.Constant) for x in pieces):
+        return v
+    if not isinstance(pieces[0], ast.Constant) or isinstance(pieces[-1], ast.Constant):
+        raise AnalysisError("xsrf_token: concatenated token %s is not understood" % q.unparse(v)[:80])
+    lit0 = pieces[0].value
+    args, seps = [], []
+    expect_arg = True
+    for x in pieces[1:]:
+        if expect_arg:
+            if isinstance(x, ast.Constant):
+                raise AnalysisError("xsrf_token: concatenated token %s is not understood" % q.unparse(v)[:80])
+            args.append(x)
+        else:
+            if not isinstance(x, ast.Constant):
+                raise AnalysisError("xsrf_token: concatenated token %s has adjacent computed pieces" % q.unparse(v)[:80])
+            seps.append(x.value)
+        expect_arg = not expect_arg
+    if len(set(seps)) != 1 or not seps[0] or not lit0.endswith(seps[0]):
+        raise AnalysisError("xsrf_token: concatenated token %s does not separate its fields uniformly" % q.unparse(v)[:80])
+    sep = seps[0]
+    head = [ast.Constant(value=h) for h in lit0[: -len(sep)].split(sep)]
+    new = ast.Call(func=ast.Attribute(value=ast.Constant(value=sep), attr="join", ctx=ast.Load()), args=[ast.List(elts=head + args, ctx=ast.Load())], keywords=[])
+    return ast.copy_location(ast.fix_missing_locations(new), v)
+
+
 def issuer_tables(ck, iss, raw, pos):
     """output version -> description of the issued token."""
     p, n = pos
@@ -590,7 +637,7 @@ def issuer_tables(ck, iss, raw, pos):
             if dl is not None and dl.kind == "assign" and isinstance(dl.value, (ast.List, ast.Tuple)):
                 v = ast.Call(func=v.func, args=[dl.value], keywords=[])
 
-        v = fold_format(v)
+        v = fold_concat(fold_format(v))
 
         def masked_of(x, depth=0):
             """the mask variable when ``x`` is ``_websocket_mask(<mask var>, <raw token>)``, directly or through a local"""
@@ -836,10 +883,19 @@ def check_cookie_set(ck, iss, cookie_name_expr):
     ck.floor("C24.cookie-set", len(sets), 1, "set_cookie calls in xsrf_token")
     ids = {n.id for n, _ in sets}
     for n, c in sets:
-        ok = len(c.args) >= 2 and q.dotted(c.args[1]) == "self._xsrf_token"
+        cval, cname = q.arg(c, 1, "value"), q.arg(c, 0, "name")
+        if cval is None or cname is None:
+            raise AnalysisError("xsrf_token: set_cookie call with arguments the rule cannot map: %s" % q.unparse(c)[:80])
+        cval_x = rd.expand(cval, n)
+        ok = q.dotted(cval) == "self._xsrf_token" or q.dotted(cval_x) == "self._xsrf_token"
+        if not ok and isinstance(cval, ast.Name):
+            # a local holding the token that was just stored
+            ok = any(isinstance(st_.ast, ast.Assign) and "self._xsrf_token" in q.assigned_paths(st_.ast) and q.dotted(st_.ast.value) == cval.id for st_ in cfg.stmt_nodes(lambda x_: x_.kind == "stmt"))
+            if not ok:
+                raise AnalysisError("xsrf_token: cannot establish what value the cookie is set to (%s)" % cval.id)
         ck.ob("C24.cookie-set", iss, c, ok, "the cookie value is the token just issued (self._xsrf_token)")
-        if cookie_name_expr is not None and c.args:
-            ck.ob("C24.cookie-set", iss, c, same(rd.expand(c.args[0], n), cookie_name_expr), "the cookie is set under the name _get_raw_xsrf_token reads (%s)" % q.unparse(cookie_name_expr)[:80], construct="cookie name")
+        if cookie_name_expr is not None:
+            ck.ob("C24.cookie-set", iss, c, same(rd.expand(cname, n), cookie_name_expr), "the cookie is set under the name _get_raw_xsrf_token reads (%s)" % q.unparse(cookie_name_expr)[:80], construct="cookie name")
 
     def transfer(n, val):
         return True if n.id in ids else val
